@@ -118,6 +118,11 @@ def gen_cases(spec, ctx):
             cases.append({"a": a, "b": b, "ds": ds, "le": le, "mode": mode, "idx": i, "kind": st, "type": t, "type_b": tb})
         # the schedule dimension: every other hash seed runs the same batch in reverse order, so that a result which
         # depends on what the process did before shows up as a cross-process digest mismatch
+        if st == "cross-seed":
+            # change marks that nest (a removed region containing an inserted one, and vice versa): the order in which
+            # several active combining marks are written must not depend on string hashing
+            for j, nest in enumerate((["strike", "under_plus"], ["under_plus", "strike"], ["strike", "under_plus", "strike"])):
+                cases.append({"kind": "printer-nested-marks", "nest": nest, "idx": spec["n"] + j, "a": 0, "b": 1})
         if st == "cross-seed" and int(spec.get("hashseed", 0)) % 2 == 1:
             cases.reverse()
         yield from cases
@@ -168,6 +173,28 @@ def check(case, ctx):
     diags = []
     monitors.TRAP.reset()
     try:
+        if kind == "printer-nested-marks":
+            import io
+            import graphtage.printer as gp
+            out = io.StringIO()
+            p = gp.Printer(out_stream=out, ansi_color=True, quiet=True)
+
+            def rec(i):
+                if i == len(case["nest"]):
+                    p.write("xy")
+                    return
+                with getattr(p, case["nest"][i])():
+                    p.write("a")
+                    rec(i + 1)
+                    p.write("b")
+            with p:
+                rec(0)
+            text = out.getvalue()
+            if ctx is not None:
+                dig = hashlib.sha1(text.encode("utf8", "surrogatepass")).hexdigest()
+                ctx.extra.setdefault("digests", []).append([case["idx"], dig, ["printer-nested-marks"] + case["nest"], repr(text)[:600]])
+                ctx.seen(case, True)
+            return diags
         if kind in ("cross-seed", "subprocess"):
             from gv import formats
             t = case.get("type", "json")
